@@ -6,6 +6,7 @@ import c11lib as L
 NAME = "doppelblock"
 MODULE = "cspuz.puzzle.doppelblock"
 FUNC = "solve_doppelblock"
+TIER1 = ("Doppelblock", "solve_doppelblock_model")
 
 
 def call(mod, pb):
@@ -47,3 +48,22 @@ def tier2(tier, rng):
         yield _rand(rng, 3, 0.5)
     for _ in range(6 if th else 1):
         yield _rand(rng, 4, 0.5)
+
+
+def tier1_problems(tier, rng):
+    """program-capture tie: every clue vector over {-1, 0, 1} for n = 2, samples for n = 3..7 (no clue, 0, maximal
+    and too large sums), n = 0 and 1 (ValueError), clue lists that are too short (IndexError)"""
+    import itertools
+    th = tier == "thorough"
+    for t in itertools.product((-1, 0, 1), repeat=4):
+        yield {"n": 2, "rows": list(t[:2]), "cols": list(t[2:])}
+    for n in (3, 4, 5, 6, 7):
+        for p in [0.0, 0.3, 0.6, 0.85] * (3 if th else 1):
+            yield _rand(rng, n, p)
+        mx = (n - 2) * (n - 1) // 2
+        f = lambda: [rng.choice([-2, -1, 0, 1, mx, mx + 1]) for _ in range(n)]  # noqa
+        yield {"n": n, "rows": f(), "cols": f()}
+    yield {"n": 0, "rows": [], "cols": []}
+    yield {"n": 1, "rows": [-1], "cols": [-1]}
+    yield {"n": 3, "rows": [1, -1], "cols": [-1, -1, -1]}
+    yield {"n": 3, "rows": [-1, -1, 0], "cols": [2]}
